@@ -589,11 +589,41 @@ def _w2_sequence_shape(e, rep, ctx, where, sep_set, marker, accepts_tail):
             if isinstance(g, ast.Constant) and isinstance(g.value, bytes):
                 return g.value
         return None
+    class _LoopAsComp:
+        # a `for sep, line in zip(seps, lines):` statement whose body adds
+        # one composed line per trip, read like the comprehension it is
+        def __init__(self, loop, elt):
+            self.generators = [loop]
+            self.elt = elt
+            self.lineno = loop.lineno
+
+    def loop_elt(loop):
+        for st in loop.body:
+            v = None
+            if isinstance(st, ast.AugAssign) and isinstance(st.op, ast.Add):
+                v = st.value
+            elif isinstance(st, ast.Expr) and isinstance(st.value, ast.Call) \
+                    and isinstance(st.value.func, ast.Attribute) and \
+                    st.value.func.attr in ('extend', 'append', 'write') and \
+                    len(st.value.args) == 1:
+                v = st.value.args[0]
+            if isinstance(v, (ast.Tuple, ast.List)) and len(v.elts) >= 4:
+                # pieces += (code, sep, line, CRLF): joined later with b''
+                j = ast.Call(func=ast.Attribute(
+                    value=ast.Constant(value=b''), attr='join',
+                    ctx=ast.Load()), args=[v], keywords=[])
+                return ast.copy_location(j, st)
+            if v is not None:
+                return v
+        return None
     for fn in fns:
-        for comp in ast.walk(fn):
-            if not isinstance(comp, (ast.GeneratorExp, ast.ListComp)) or \
-                    len(comp.generators) != 1:
-                continue
+        comps = [c for c in ast.walk(fn)
+                 if isinstance(c, (ast.GeneratorExp, ast.ListComp)) and
+                 len(c.generators) == 1]
+        for lp in ast.walk(fn):
+            if isinstance(lp, ast.For) and loop_elt(lp) is not None:
+                comps.append(_LoopAsComp(lp, loop_elt(lp)))
+        for comp in comps:
             gen = comp.generators[0]
             if not (isinstance(gen.iter, ast.Call) and
                     isinstance(gen.iter.func, ast.Name) and
